@@ -103,7 +103,8 @@ Section Check.
   | WRound (items : list (str * str * ppp * ppp)) (g : dbdig)
   (* the REST patch endpoint stored operations of its own (an administrative client that is not modelled): the store moves
      on as observed — the new operation documents are taken over, the datatype documents are the observed ones *)
-  | WRest (newops : list odoc) (g : dbdig).
+  | WRest (newops : list odoc) (g : dbdig)
+  | WReset (col : str) (clients : list (str * N)) (g : dbdig).     (* ResetCollection; clients = the registered clients afterwards *)
 
   Record wsys := mkWsys { ws_db : sdb; ws_dts : list (str * str * wdty); ws_ss : snapstore }.    (* (collection, cuid, datatype) *)
 
@@ -200,6 +201,7 @@ Section Check.
         if db_matches (ws_db s) g && ss_matches ss' g then Some (mkWsys (ws_db s) (ws_dts s) (ss_adopt ss' g)) else None
     | WRound _ _ => None
     | WRest _ _ => None
+    | WReset _ _ _ => None
     end.
 
   Definition item_matches (db : sdb) (it : str * str * ppp * ppp) : option sdb :=
@@ -234,6 +236,11 @@ Section Check.
     | WRest newops g =>
         let db' := mkSdb (s_cols (ws_db s)) (s_colctr (ws_db s)) (s_clients (ws_db s)) (g_dts g) (s_ops (ws_db s) ++ newops) in
         if db_matches db' g then Some (mkWsys db' (ws_dts s) (ss_adopt (ws_ss s) g)) else None
+    | WReset col clients g =>
+        let db' := reset_collection (ws_db s) col in
+        let ss' := reset_snapstore (ws_ss s) col (alookup str_eqb col (s_cols (ws_db s))) in
+        if db_matches db' g && ss_matches ss' g && list_eqb (fun a b => str_eqb (fst a) (fst b) && N.eqb (snd a) (snd b)) (s_clients db') clients
+        then Some (mkWsys db' (ws_dts s) (ss_adopt ss' g)) else None
     | _ => wstep0 s e
     end.
 
@@ -305,6 +312,7 @@ Arguments WRawErr {call}.
 Arguments WSnapUpd {call}.
 Arguments WRound {call}.
 Arguments WRest {call}.
+Arguments WReset {call}.
 
 Definition check_wire_counter : list (wev ccall) -> bool :=
   check_whist cstate ccall val cstate c_init c_validate c_local' c_exec_remote id_ id_ c_view (fun s => s) RVal 0 c_marshal c_unmarshal.
